@@ -227,9 +227,11 @@ impl LogState {
                 // In 'follow' mode, might get a line with no trailing \n
                 // (eg. when ./configure is halfway through a test), which we
                 // deal with below.
-                let mut line = String::new();
-                f.read_line(&mut line)?;
-                line
+                // Scripts may write bytes that are not UTF-8: show them as
+                // replacement characters rather than give up on the whole log.
+                let mut buf = Vec::new();
+                f.read_until(b'\n', &mut buf)?;
+                String::from_utf8_lossy(&buf).into_owned()
             } else {
                 String::new()
             };
